@@ -120,6 +120,37 @@ func (crashScen) Gen(r *Rng, cfg GenConfig) any {
 		}
 		c.Prefix = append(c.Prefix, CHOp{Op: "write", Path: p, Content: nc})
 	}
+	if r.Chance(1, 6) {
+		// every input of a glob-only task vanishes before the killed run (which then succeeds on nothing) and
+		// comes back unchanged afterwards
+		for _, t := range Shuffled(r, c.Prog.Tasks) {
+			globOnly := len(t.Deps) > 0
+			var matched []string
+			for _, d := range t.Deps {
+				switch d.Kind {
+				case "file":
+					globOnly = false
+				case "glob":
+					matched = append(matched, RefGlob(disk, d.Value)...)
+				}
+			}
+			if !globOnly || len(matched) == 0 {
+				continue
+			}
+			if !r.Chance(2, 3) {
+				c.Prefix = append(c.Prefix, CHOp{Op: "run", Tasks: []string{t.Name}, JSON: true})
+			}
+			var back []CHOp
+			for _, f := range dedupSorted(append([]string{}, matched...)) {
+				c.Prefix = append(c.Prefix, CHOp{Op: "delete", Path: f})
+				back = append(back, CHOp{Op: "write", Path: f, Content: disk[f]})
+			}
+			c.Run = CHOp{Op: "run", Tasks: []string{t.Name}, JSON: r.Chance(1, 2)}
+			run := CHOp{Op: "run", Tasks: []string{t.Name}, JSON: true}
+			c.Conts = [][]CHOp{append(back, run), {run}}
+			return c
+		}
+	}
 	c.Run = CHOp{Op: "run", Tasks: Shuffled(r, Subset(r, names, 3, 4)), JSON: r.Chance(1, 2), Force: r.Chance(1, 4)}
 	if len(c.Run.Tasks) == 0 {
 		c.Run.Tasks = []string{Pick(r, names)}
